@@ -1,4 +1,5 @@
 """C13 — quadtree enumeration and tile counts (E1: CrossHair on the real functions, inductive cuts)."""
+from vlib.core import soft_attr as core_u
 import os
 
 import toasty.pyramid as tp
@@ -22,13 +23,13 @@ THOROUGH = QUICK + [("chk_subpyramid_toast_userfilter_ancestors_wide", 900), ("c
 
 
 def declare(run):
-    run.uses(tp.pos_parent, tp.pos_children, tp.is_subtile, tp._postfix_pos, tp.generate_pos, tp.depth2tiles,
-             tp.tiles_at_depth, tp.Pyramid._generator, tp.Pyramid.subpyramid, tp._make_position_filter,
+    run.uses(tp.pos_parent, tp.pos_children, tp.is_subtile, core_u(tp, "_postfix_pos"), tp.generate_pos, tp.depth2tiles,
+             tp.tiles_at_depth, core_u(tp.Pyramid, "_generator"), tp.Pyramid.subpyramid, core_u(tp, "_make_position_filter"),
              tp.PyramidReductionIterator.__next__, tp.PyramidReductionIterator.set_data,
-             tp.PyramidReductionIterator._ensure_levels, tp.PyramidReductionIterator.result,
+             core_u(tp.PyramidReductionIterator, "_ensure_levels"), tp.PyramidReductionIterator.result,
              tp.Pyramid.count_leaf_tiles, tp.Pyramid.count_live_tiles, tp.Pyramid.count_operations,
-             tp.Pyramid._walk_serial, tp.Pyramid._visit_leaves_serial, tp.Pyramid.visit_leaves, tp.Pyramid.walk,
-             tt._postfix_corner, tt.generate_tiles_filtered, tt.generate_tiles)
+             core_u(tp.Pyramid, "_walk_serial"), core_u(tp.Pyramid, "_visit_leaves_serial"), tp.Pyramid.visit_leaves, tp.Pyramid.walk,
+             core_u(tt, "_postfix_corner"), tt.generate_tiles_filtered, tt.generate_tiles)
     run.bound(position_algebra="all n, x, y >= 0 (unbounded symbolic ints)", subtile_closed_form="levels <= 5",
               one_level_generators="n <= 30, depth <= 31, symbolic filter verdict / bottom_only / orientation",
               reducer_step="k <= 3 levels of arbitrary (symbolic) slot contents, Q = parent or first-descendant (<= 2 levels down) of a later sibling",
